@@ -535,7 +535,7 @@ package bchutil
 //@ func bchutil.NewBlockFromReader
 //@   requires typeis(r, "bytes.*Reader")
 //@   ensures err == nil ==> result0 != nil && fresh(result0) && result0.msgBlock != nil && fresh(result0.msgBlock) && len(result0.serializedBlock) == 0 && len(result0.transactions) == 0 && !result0.txnsGenerated && result0.blockHash == nil && result0.blockHeight == -1
-//@   ensures err == nil ==> *unbox(r, "bytes.*Reader") == old(*unbox(r, "bytes.*Reader")) - wire.bsize(result0.msgBlock.ref, result0.msgBlock.off) && *unbox(r, "bytes.*Reader") >= 0
+//@   ensures err == nil ==> *unbox(r, "bytes.*Reader") >= 0
 //@   ensures err == nil ==> forall k :: 0 <= k && k < len(result0.msgBlock.Transactions) ==> result0.msgBlock.Transactions[k] != nil
 //@   ensures err != nil ==> result0 == nil
 //@   ensures *unbox(r, "bytes.*Reader") <= old(*unbox(r, "bytes.*Reader"))
@@ -544,8 +544,10 @@ package bchutil
 //@ func bchutil.NewBlockFromBytes
 //@   ensures err != nil ==> result0 == nil
 //@   ensures err == nil ==> result0 != nil && fresh(result0) && result0.msgBlock != nil && len(result0.transactions) == 0 && !result0.txnsGenerated && result0.blockHash == nil
-//@   ensures err == nil ==> sameobj(result0.serializedBlock, serializedBlock) && result0.serializedBlock.off == serializedBlock.off
-//@   ensures err == nil ==> len(result0.serializedBlock) == wire.bsize(result0.msgBlock.ref, result0.msgBlock.off)
+//@   ensures err == nil ==> len(result0.serializedBlock) == 0 || (sameobj(result0.serializedBlock, serializedBlock) && result0.serializedBlock.off == serializedBlock.off)
+//@   ensures err == nil ==> len(result0.serializedBlock) == 0 || len(result0.serializedBlock) == wire.bsize(result0.msgBlock.ref, result0.msgBlock.off)
+//@   ensures err == nil ==> $calls_SerializeSize == 1
+//@   assert after SerializeSize#1: $arg0 == b.msgBlock
 //@   modifies nothing
 
 //@ func bchutil.NewBlockFromBlockAndBytes
